@@ -51,7 +51,7 @@ def forms(ext):
     if fam == "xml":
         f = ["xml", "mxml"]
         if ext in ("md", "markdown"):
-            f += ["mdparen", "mdquote"]
+            f += ["mdparen", "mdquote", "divxml"]
         return f
     if fam == "css":
         return ["block", "mblock", "doc"]
@@ -190,6 +190,11 @@ def wrap(form, lines, ext, i):
     if form == "mxml":
         out = ["<!--"] + lines + ["-->"]
         return out, 0, [(k + 1, 0) for k in range(len(lines))]
+    if form == "divxml":
+        # an HTML block that starts with a <div> line; the comment begins on its second (or a later) line
+        if len(lines) == 1:
+            return ["<div>", "<!-- " + lines[0] + " -->", "</div>"], 0, [(1, 5)], (1, 1)
+        return ["<div>", "<p>", "<!--"] + lines + ["-->", "</p>", "</div>"], 0, [(k + 3, 0) for k in range(len(lines))], (2, len(lines) + 3)
     if form == "mdparen":
         assert len(lines) == 1
         return ["[//]: # (" + lines[0] + ")"], 0, [(0, 9)]
@@ -222,7 +227,10 @@ def render(items, ext, variant=0, crlf=False, multibyte=False, tag_attrs=None, b
     # (Markdown used to pair link-reference comments and HTML comments on separate stacks -- finding M1,
     # repaired in /repo -- so Markdown files now mix all four comment forms freely.)
     if container:
-        fl = ["xml", "mxml"]     # the extent of a [//]: node inside a container is the grammar's business (gray)
+        # the extent of a [//]: node inside a container is the grammar's business (gray); so is an HTML block that
+        # starts with a tag line inside a container: tree-sitter-md yields an ERROR node instead of html_block when
+        # more lines of the container follow it (quirk G3, DESIGN 7.2), so the <div>-wrapped form is used at top level only
+        fl = ["xml", "mxml"]
     for n, it in enumerate(items, 1):
         if it["k"] == "code":
             out_lines.append(code_line(ext, n))
@@ -234,6 +242,8 @@ def render(items, ext, variant=0, crlf=False, multibyte=False, tag_attrs=None, b
                 out_lines.append("")
         else:
             form = fl[(variant + n) % len(fl)]
+            if container and n == len(items) and variant % 2 == 0:
+                form = "divxml"      # last element of the container (nothing follows: no G3): comment on line 2+ of its HTML block
             if md and it.get("ck") in ("a", "b") and mixed_md:
                 # Markdown file mixing the two comment kinds: a = [//]: # link comments, b = HTML comments
                 form = (["mdparen", "mdquote"] if it["ck"] == "a" else ["xml", "mxml"])[(variant + n) % 2]
@@ -289,7 +299,9 @@ def render(items, ext, variant=0, crlf=False, multibyte=False, tag_attrs=None, b
                             ncl.append(part)
                             pos += len(part) + 1
                     clines, where = ncl, nwh
-            flines, c0, cl = wrap(form, clines, ext, n)
+            wrapped = wrap(form, clines, ext, n)
+            flines, c0, cl = wrapped[:3]
+            cfirst, clast = wrapped[3] if len(wrapped) > 3 else (0, len(flines) - 1)
             base = len(out_lines)
             for (li, off, k, p, nm) in where:
                 fline, coff = cl[li]
@@ -301,7 +313,7 @@ def render(items, ext, variant=0, crlf=False, multibyte=False, tag_attrs=None, b
             # tree-sitter-rust: a /// or //! doc comment node includes its line terminator (calibrated
             # on the unchanged tree; every other line-comment node ends before the line terminator)
             incl_nl = (ext == "rs" and form in ("rsdoc", "rsinner")) or form in ("mdparen", "mdquote")  # md: link_reference_definition too
-            spans[n] = (base, c0, base + len(flines) - 1, len(flines[-1]), incl_nl)
+            spans[n] = (base + cfirst, c0, base + clast, len(flines[clast]), incl_nl)
             if md:
                 out_lines.append("")
     if container:
